@@ -367,6 +367,7 @@ for _pid, _what, _thms in [
     ("C17", "ParseSerializationAttr's prefix, part limit and key table and GetFieldSlotIndex's switch", "ser_*_is_models, slot_switch_is_models; Props.C17.slotIndexOf_eq_table and setField_getField relate the tables to the model's functions"),
     ("C04", "convertStringToXSDValue's switch: the case lists of datatypes and the boolean spellings", "xsd_cases_are_models, xsd_bool_false_is_models, xsd_bool_true_is_models; Props.C04.convert_bool_by_table, isIntType_by_table, convert_other_is_string relate the tables to the model's convert"),
     ("C10", "convertStringToXSDValue's case lists and boolean spellings", "xsd_*_is_models"),
+    ("C16", "every function returning a MerklizeOption with the one Merklizer field its body assigns", "merklize_options_are_models; Props.C16.option_order_irrelevant, later_options_keep_hasher, applyOpt_comm: options that set different fields commute, so the order they are listed in is no input (the harness varies it)"),
     ("C19", "the bound on alternate links", "alternate_hops_is_models"),
     ("C12", "the bound on alternate links and the depth of every tree the merklizer creates", "alternate_hops_is_models, tree_depth_is_models"),
     ("C09", "the size limit of a status response", "status_limit_is_models"),
